@@ -1461,3 +1461,157 @@ def run_extents(prog, res, floor=3, prop="C01", rule="C01.k", advisory_filter=No
                                 "every path: %s" % (fn.name, nd["o"], N, off, kind, fn.txt(fn.strip(obj))[:50], L, "; ".join(missing)),
                                 unit=fn.unit.display, advisory=adv))
     return stat
+
+
+# ---------------------------------------------------------------------------------------------
+# C01.m - allocation sizes: a size computed from a program-supplied count cannot wrap around.
+
+ALLOCATORS = {"sexp_alloc_tagged_aux": 1, "sexp_alloc": 1, "malloc": 0, "calloc": 1, "realloc": 1, "sexp_alloc_bytecode": 1}
+FIXNUM_MAX = (1 << 62) - 1
+
+
+def run_alloc(prog, res, floor=2, prop="C01", rule="C01.m", advisory_filter=None, prims=None):
+    stat = res.stat(rule, "allocation sizes of the form c0 + c1*count with a program-supplied count: the largest count the "
+                    "dominating comparisons admit (at most the fixnum range) keeps the size below 2^63 - a wrapped size "
+                    "allocates a small object that the initialising loop then overruns", floor=floor)
+    prim_of = {(f.file, f.name): (s, o) for (f, s, o) in (prims or [])}
+    for fn in prog.all_funcs():
+        if not fn.blocks:
+            continue
+        cx = None
+        for i, nd in enumerate(fn.nodes):
+            if nd["k"] != "call" or nd.get("o") not in ALLOCATORS:
+                continue
+            args = nd["c"][1:]
+            k = ALLOCATORS[nd["o"]]
+            if k >= len(args) or fn.const_val(args[k]) is not None:
+                continue
+            if cx is None:
+                cx = Ctx(fn)
+                cx.prog = prog
+            at = enclosing_elem(fn, i, cx.pos)
+            if at is None or at[0] not in cx.reach:
+                continue
+            S = canon(cx, args[k], at)
+            uterms = [t for t in S[1] if t[:3] in ("Uf(", "Uc(")]
+            if not uterms or len(S[1]) != 1:
+                continue
+            u = uterms[0]
+            c1 = S[1][u]
+            stat.sites += 1
+            stat.obligations += 1
+            # largest admitted count: a fact  K - u >= 0  (or > 0) with constant K
+            K = FIXNUM_MAX
+            for (E, strict, _uns) in guard_facts(cx, at):
+                if set(E[1]) == {u} and E[1][u] == -1:
+                    kk = E[0] - 1 if strict else E[0]
+                    K = min(K, kk)
+            worst = S[0] + c1 * K
+            disc = "%s(%s)" % (nd["o"], fn.txt(args[k])[:50])
+            if c1 > 0 and worst < (1 << 63):
+                stat.discharged += 1
+                stat.sample({"site": fn.where(i), "function": fn.name, "size": "%d + %d*count" % (S[0], c1), "count <=": K})
+                continue
+            key = (fn.file, fn.name)
+            adv = False
+            if advisory_filter is not None and key in prim_of:
+                adv = bool(advisory_filter(fn, prim_of[key][0], prim_of[key][1]))
+            elif advisory_filter is not None:
+                adv = fn.unit.name not in CORE_UNITS
+            res.add(Finding(prop, rule + ".size-may-wrap", fn.name, disc, fn.where(i),
+                            "%s allocates %d + %d*count bytes where count is program-supplied and the comparisons that hold here "
+                            "admit counts up to %d: the size wraps around 2^64 (%d + %d*%d), a small object is allocated and the "
+                            "code that initialises `count` elements writes far past it" %
+                            (fn.name, S[0], c1, K, S[0], c1, K), unit=fn.unit.display, advisory=adv))
+    return stat
+
+
+# ---------------------------------------------------------------------------------------------
+# C01.n - errors are raised, not returned as values: a VM case that stores the result of a C
+# function which can return an exception object into a stack slot tests that result
+# (sexp_check_exception() or an explicit sexp_exceptionp) before the next instruction is dispatched.
+
+def may_return_exception(prog):
+    """names of functions some return statement of which yields an exception constructor's result
+    (directly, through a local, or through another such function)"""
+    from cfg import local_defs
+    out = set()
+    funcs = [f for f in prog.all_funcs() if f.blocks and f.ret_type == SEXP_T]
+    changed = True
+    rounds = 0
+    while changed and rounds < 6:
+        changed = False
+        rounds += 1
+        for f in funcs:
+            if f.name in out:
+                continue
+
+            def exc(n, depth=0):
+                n = f.strip(n)
+                nd = f.nodes[n]
+                if nd["k"] == "call":
+                    return nd.get("o") in EXC_CTORS or nd.get("o") in out
+                if nd["k"] == "cond":
+                    return exc(nd["c"][1], depth) or exc(nd["c"][2], depth)
+                if nd["k"] == "ref" and "d" in nd and nd["d"] not in f.params and depth < 2:
+                    return any(r is not None and exc(r, depth + 1) for (_d, r) in local_defs(f, nd["d"]))
+                return False
+            for nd in f.nodes:
+                if nd["k"] == "ret" and nd.get("c") and exc(nd["c"][0]):
+                    out.add(f.name)
+                    changed = True
+                    break
+    return out
+
+
+NUMERIC_ENTRY = ("sexp_add", "sexp_sub", "sexp_mul", "sexp_div", "sexp_quotient", "sexp_remainder", "sexp_compare",
+                 "sexp_ratio_normalize", "sexp_subbytes_op")
+
+
+def run_raise(prog, res, floor=3, prop="C01", rule="C01.n"):
+    from cfg import reach_without
+    stat = res.stat(rule, "VM cases: the result of a C function that can return an exception object is tested before the "
+                    "next instruction is dispatched (errors reach the handler instead of becoming values)", floor=floor)
+    fn = prog.func("sexp_apply")
+    if fn is None:
+        raise AnalysisBroken("anchor vanished: sexp_apply")
+    mayexc = may_return_exception(prog)
+    cx = Ctx(fn)
+    # the dispatch: the block of the opcode switch
+    sw = [b for b in fn.blocks.values() if b.term == "SwitchStmt" and b.id in cx.reach]
+    if not sw:
+        raise AnalysisBroken("anchor vanished: the opcode switch of sexp_apply")
+    sw = max(sw, key=lambda b: len(b.succs))
+    tests = set()
+    for b in fn.blocks.values():
+        if b.cond is not None and b.id in cx.reach:
+            c = fn.strip(b.cond)
+            if "sexp_exceptionp" in (fn.macros(c) or ()) and "stack[" in fn.txt(c):
+                tests.add((b.id, len(b.elems)))
+    for i, nd in enumerate(fn.nodes):
+        if nd["k"] != "bin" or nd["o"] != "=":
+            continue
+        l, r = fn.strip(nd["c"][0]), fn.strip(nd["c"][1])
+        if fn.nodes[r]["k"] != "call" or not fn.txt(l).startswith("stack["):
+            continue
+        name = fn.nodes[r].get("o")
+        if name is None or name not in mayexc or name in EXC_CTORS:
+            continue
+        if name in NUMERIC_ENTRY:
+            # where the VM does not test these results it has just verified both operands to be fixnums, so only
+            # heap exhaustion can make the call fail (their operand guards are C01.b's business)
+            continue
+        at = enclosing_elem(fn, i, cx.pos)
+        if at is None or at[0] not in cx.reach:
+            continue
+        stat.sites += 1
+        stat.obligations += 1
+        if reach_without(fn, at, (sw.id, 0), tests):
+            res.add(Finding(prop, rule + ".exception-not-raised", fn.name, "result of %s" % name, fn.where(i),
+                            "a VM case stores the result of %s (which can return an exception object) into %s and goes on to "
+                            "the next instruction without testing it: the error is handed to the program as an ordinary value "
+                            "instead of being raised" % (name, fn.txt(l)), unit=fn.unit.display))
+        else:
+            stat.discharged += 1
+            stat.sample({"site": fn.where(i), "callee": name})
+    return stat
